@@ -225,10 +225,12 @@ TCloseRet ==
          \* explicit premise of both Close clauses: every final attempt either reached the coordinator (creq) or ran into
          \* a connection fault of the coordinator side (conn field of creq, cfault events) - those count as refusals.
          \* Unsteered (no verdict): errors not observable; a lost partition received an error of the classes dial /
-         \* coordinator lookup / timeout / other (an attempt failed outside client and coordinator and consumed
-         \* Retry.Max); or the coordinator side saw a connection event it did not script. Connection errors (EOF,
-         \* reset, broken pipe) that no coordinator-side event explains do NOT un-steer: the coordinator was reachable
-         \* and unchanged, the client burnt the attempt locally on a dead connection.
+         \* out-of-brokers / timeout / other (an attempt failed outside client and coordinator and consumed
+         \* Retry.Max); or the coordinator side saw a connection event it did not script. NOT un-steering: connection
+         \* errors (EOF, reset, broken pipe) that no coordinator-side event explains, and Kafka error codes that no
+         \* commit response of the coordinator contained (the simulated cluster answers every coordinator lookup of
+         \* the group successfully): the coordinator was reachable and unchanged, the client burnt the attempt locally
+         \* - on a dead connection, or by refusing to look the coordinator up.
          steered == cfg.errors /\ ~unsteer /\ \A p \in lost : envErrs[p] = 0
          v1 == premise /\ lost # {}
          \* no mark is lost at Close unless the final attempts were really exhausted FOR THAT PARTITION:
